@@ -44,11 +44,25 @@ type Program struct {
 	// CacheLimit: size limit of the shared cache manager in bytes (0 = unlimited as before).
 	// With a limit, every finished cache access measures the cached indexes (the prune pass).
 	CacheLimit int64 `json:"cacheLimit,omitempty"`
+	// TwoCaches: the shard has a second cached index (a flat vector index "fl" next to the graph
+	// index), so that a request on one cache can finish - and, with a limit, run the prune pass
+	// over all caches - while a write is inside the other.
+	TwoCaches bool `json:"twoCaches,omitempty"`
 }
+
+// twoCaches is the schema variant of the execution in progress (a worker runs one at a time).
+var twoCaches bool
 
 const prop = "vec"
 
 func schema() models.IndexSchema {
+	if twoCaches {
+		twoCaches = false
+		sc := schema()
+		twoCaches = true
+		sc["fl"] = models.IndexSchemaValue{Type: models.IndexTypeVectorFlat, VectorFlat: &models.IndexVectorFlatParameters{VectorSize: 2, DistanceMetric: models.DistanceEuclidean}}
+		return sc
+	}
 	return models.IndexSchema{
 		prop:  {Type: models.IndexTypeVectorVamana, VectorVamana: &models.IndexVectorVamanaParameters{VectorSize: 2, DistanceMetric: models.DistanceEuclidean, SearchSize: 75, DegreeBound: 64, Alpha: 1.2}},
 		"cat": {Type: models.IndexTypeString, String: &models.IndexStringParameters{CaseSensitive: true}},
@@ -57,6 +71,13 @@ func schema() models.IndexSchema {
 }
 
 func doc(i int) sl.Doc {
+	if twoCaches {
+		twoCaches = false
+		d := doc(i)
+		twoCaches = true
+		d["fl"] = d[prop]
+		return d
+	}
 	if i > basePoints {
 		// points the writer adds land next to the query vectors, so that a
 		// search that sees them (or their reused node ids) returns them
@@ -72,7 +93,7 @@ func scratch() string {
 	return "/dev/shm"
 }
 
-var baseFile string // prepared database, copied for every execution
+var baseFiles = map[bool]string{} // prepared database per schema variant, copied for every execution
 
 // basePoints: more points than the small search window visits, so that one
 // searcher leaves part of the shared graph cache unloaded for the other
@@ -83,7 +104,8 @@ func prepareBase() {
 	if err != nil {
 		panic(err)
 	}
-	baseFile = filepath.Join(dir, "base.bbolt")
+	baseFile := filepath.Join(dir, "base.bbolt")
+	baseFiles[twoCaches] = baseFile
 	col := models.Collection{UserId: "u", Id: "col", IndexSchema: schema(), UserPlan: models.UserPlan{MaxPointSize: 1 << 20}}
 	s, err := shard.NewShard(baseFile, col, cache.NewManager(-1))
 	if err != nil {
@@ -141,6 +163,8 @@ func query(kind string) models.Query {
 	case "vamana-filter":
 		f := sl.IdQuery(1, 2, 3, 57)
 		return models.Query{Property: prop, VectorVamana: &models.SearchVectorVamanaOptions{Vector: []float32{2.2, 1.1}, Operator: models.OperatorNear, SearchSize: 75, Limit: 10, Filter: &f}}
+	case "flat":
+		return models.Query{Property: "fl", VectorFlat: &models.SearchVectorFlatOptions{Vector: []float32{2.2, 1.1}, Operator: models.OperatorNear, Limit: 10}}
 	case "text":
 		return models.Query{Property: "txt", Text: &models.SearchTextOptions{Value: "quick dog", Operator: models.OperatorContainsAny, Limit: 10}}
 	case "string":
@@ -156,9 +180,11 @@ func run(raw json.RawMessage, prefix []string) (*vsched.Trace, []schedlib.V, str
 	if err := json.Unmarshal(raw, &p); err != nil {
 		panic(err)
 	}
-	if baseFile == "" {
+	twoCaches = p.TwoCaches
+	if baseFiles[twoCaches] == "" {
 		prepareBase()
 	}
+	baseFile := baseFiles[twoCaches]
 	dir, err := os.MkdirTemp(scratch(), "c09")
 	if err != nil {
 		panic(err)
@@ -209,6 +235,9 @@ func run(raw json.RawMessage, prefix []string) (*vsched.Trace, []schedlib.V, str
 	case "warm":
 		for _, k := range []string{"vamana", "vamana-filter"} {
 			s.SearchPoints(models.SearchRequest{Query: query(k), Limit: 10})
+		}
+		if twoCaches {
+			s.SearchPoints(models.SearchRequest{Query: query("flat"), Limit: 10})
 		}
 	case "partial":
 		s.SearchPoints(models.SearchRequest{Query: query("vamana-filter"), Limit: 10})
@@ -564,6 +593,14 @@ func master(cfg *harness.Config, rep *harness.Report) {
 		q := pr.(Program)
 		q.CacheLimit = 16 << 20
 		core = append(core, q)
+	}
+	// two cached indexes in one shard (graph + flat): a search on one finishes - and with a limit
+	// runs the prune pass over both - while the write is inside the other
+	for _, w := range []string{"updvec", "del-ins"} {
+		for _, limit := range []int64{0, 16 << 20} {
+			q := Program{Searchers: []string{"flat", "vamana"}, Writer: w, Start: "warm", GetEvery: 8, TwoCaches: true, CacheLimit: limit}
+			programs = append(programs, q) // bound 0 in the quick tier, bound 1 in the thorough tier (~24 k executions each)
+		}
 	}
 	coreAll := mk([]string{"cold", "warm"}, []string{"none", "updvec", "del-ins"}, sets, 8)
 	type phase struct {
